@@ -512,6 +512,25 @@ pub fn run(run: &mut Run) {
         let (text, kind) = mutate(rng, &base);
         l.count(kind);
         check_parser_total(l, &text, kind);
+        // history on one thread: whatever the parser made of the mutated text (accepted, rejected half-way through a
+        // line, ...), the next parse of the valid text on the same thread must still give the matrix back
+        if idx % 2 == 0 {
+            l.eval();
+            match guard(|| SparseMatrix::from_alist(&base)) {
+                Ok(Ok(h2)) => {
+                    if h2.num_rows() != m.rows || h2.num_cols() != m.cols || { let mut a = m.e.clone(); a.sort_unstable(); a.dedup(); crate::genm::from_sparse(&h2) != a } {
+                        l.violation(
+                            format!("a valid alist parsed after a {} text on the same thread does not give the matrix back (state kept between parser calls)", if SparseMatrix::from_alist(&text).is_ok() { "accepted" } else { "rejected" }),
+                            m.json().set("previous_text_kind", kind).set("previous_text", text.chars().take(400).collect::<String>()).set("got_entries", crate::json::jentries(&crate::genm::from_sparse(&h2))),
+                        );
+                    } else {
+                        l.count("valid_parse_after_mutated_parse");
+                    }
+                }
+                Ok(Err(e)) => l.violation("a valid alist is rejected when parsed after another text on the same thread", m.json().set("error", format!("{}", e)).set("previous_text_kind", kind)),
+                Err(p) => l.violation(format!("from_alist panicked on a valid alist after another text: {}", panic_class(&p)), m.json().set("previous_text_kind", kind)),
+            }
+        }
         if idx < 3 {
             l.sample(|| J::obj().set("kind", kind).set("text", text.clone()));
         }
